@@ -20,6 +20,9 @@ for line in log.splitlines():
     for c, ps in by_commit.items():
         if h.startswith(c) or c.startswith(h):
             props |= ps
+    for f in kf:
+        if f["status"] == "fixed" and h[:7] in (f.get("record") or ""):
+            props.add(f["property"])
     rows.append(f"| {h} | {', '.join(sorted(props)) or '(follow-up)'} | {s[4:].strip()} |")
 t74 = "| commit | property | repair |\n|---|---|---|\n" + "\n".join(rows) + "\n"
 t75 = ""
